@@ -382,3 +382,103 @@ func exactIndexCall(v ssa.Value) *ssa.Call {
 	}
 	return nil
 }
+
+// rulePrefixGuard (I-PREFIX): a hand-written prefix test `len(x) > len(q) && equal(x[:len(q)], q)`.  The slice is in
+// bounds from len(x) >= len(q) on, and a name that IS the typed fragment starts with it: a strict comparison as the
+// guard of a prefix-equality test drops exactly the names of the fragment's own length, so a fully typed account,
+// payee or commodity is no longer offered (prefix completeness).  Reported: a string slice x[:len(q)] that is compared
+// for equality with q (==, !=, strings.EqualFold, bytes.Equal) and whose block is control dependent on the strict
+// comparison len(x) > len(q).  (A truncation `if len(s) > n { s = s[:n] }` is not a prefix test and not judged.)
+// Written for C16-m27; C16-m23 was the same slip.
+func rulePrefixGuard(c *Ctx) {
+	if c.ranOnce("rulePrefixGuard") {
+		return
+	}
+	sameVal := func(a, b ssa.Value) bool {
+		a, b = stripConv(a), stripConv(b)
+		if a == b || sameLoad(a, b) {
+			return true
+		}
+		fa, ok1 := a.(*ssa.Field)
+		fb, ok2 := b.(*ssa.Field)
+		return ok1 && ok2 && fa.Field == fb.Field && (fa.X == fb.X || sameLoad(fa.X, fb.X))
+	}
+	lenArg := func(v ssa.Value) ssa.Value {
+		if call, ok := stripConv(v).(*ssa.Call); ok {
+			if bi, ok := call.Call.Value.(*ssa.Builtin); ok && bi.Name() == "len" && len(call.Call.Args) == 1 {
+				return call.Call.Args[0]
+			}
+		}
+		return nil
+	}
+	n, judged := 0, 0
+	for _, f := range c.P.ModuleFuncs() {
+		for _, b := range f.Blocks {
+			for _, ins := range b.Instrs {
+				sl, ok := ins.(*ssa.Slice)
+				if !ok || sl.Low != nil || sl.High == nil || sl.Referrers() == nil {
+					continue
+				}
+				if bt, ok := sl.X.Type().Underlying().(*types.Basic); !ok || bt.Info()&types.IsString == 0 {
+					continue
+				}
+				q := lenArg(sl.High)
+				if q == nil {
+					continue
+				}
+				// compared for equality with q?
+				isTest := false
+				for _, r := range *sl.Referrers() {
+					switch x := r.(type) {
+					case *ssa.BinOp:
+						if (x.Op == token.EQL || x.Op == token.NEQ) && (sameVal(x.X, q) || sameVal(x.Y, q)) {
+							isTest = true
+						}
+					case *ssa.Call:
+						if cal := x.Call.StaticCallee(); cal != nil && cal.Pkg != nil && (cal.Pkg.Pkg.Path() == "strings" && cal.Name() == "EqualFold" || cal.Pkg.Pkg.Path() == "bytes" && cal.Name() == "Equal") {
+							for _, a := range x.Call.Args {
+								if sameVal(a, q) {
+									isTest = true
+								}
+							}
+						}
+					}
+				}
+				if !isTest {
+					continue
+				}
+				judged++
+				for _, cc := range controlCondsPol(b) {
+					bo, ok := cc.Cond.(*ssa.BinOp)
+					if !ok {
+						continue
+					}
+					lx, ly := lenArg(bo.X), lenArg(bo.Y)
+					if lx == nil || ly == nil {
+						continue
+					}
+					// normalise to len(x) OP len(q)
+					op := bo.Op
+					switch {
+					case sameVal(lx, sl.X) && sameVal(ly, q):
+					case sameVal(ly, sl.X) && sameVal(lx, q):
+						op = map[token.Token]token.Token{token.LSS: token.GTR, token.GTR: token.LSS, token.LEQ: token.GEQ, token.GEQ: token.LEQ}[op]
+					default:
+						continue
+					}
+					if !cc.Taken {
+						op = map[token.Token]token.Token{token.LSS: token.GEQ, token.GTR: token.LEQ, token.LEQ: token.GTR, token.GEQ: token.LSS}[op]
+					}
+					if op == token.GTR {
+						n++
+						c.finding("I-PREFIX", funcName(f), "a prefix test is guarded by a strict length comparison", bo.Pos(),
+							"x[:len(q)] is compared with q only where len(x) > len(q): a name that is exactly the typed fragment starts with it, but is dropped by the strict guard (the slice is in bounds from len(x) >= len(q) on) - a fully typed account, payee or commodity disappears from prefix completion while longer names with that prefix are still offered")
+					}
+				}
+			}
+		}
+	}
+	if n == 0 {
+		c.ok("I-PREFIX", "module", "no prefix-equality test behind a strict length guard", token.NoPos, "hand-written prefix tests judged: "+itoa(judged))
+	}
+}
